@@ -306,6 +306,45 @@ theorem readFile_length (sd : Side) (hw : C11.WFSide sd) (bat : List Nat) (e : E
     rw [hf1, heq, Nat.sub_self]
     simp [heq]
 
+/-- … and it is the concatenation of the pieces the block loop collects -/
+theorem readFile_pieces (sd : Side) (hw : C11.WFSide sd) (bat : List Nat) (e : Entry) (u : Nat) (h1 : 1 ≤ u) (h8 : u ≤ 8)
+    (hne : e.blocks ≠ []) (hlt : ∀ b ∈ e.blocks, b < 160)
+    (hlast : ∀ last, e.blocks.getLast? = some last → bat.getD last 0 = 0xC0 + u) (hlb : e.lastBytes ≤ 255) :
+    readFile sd bat e = piecesFrom sd u e.lastBytes (e.blocks.length - 1) e.blocks 0 := by
+  unfold readFile
+  cases hl : e.blocks.getLast? with
+  | none => rw [List.getLast?_eq_none_iff] at hl; exact absurd hl hne
+  | some last =>
+    dsimp only
+    have hst := hlast last hl
+    have hu : bat.getD last 0 - Gen.Disk.bsLastBlock = u := by
+      rw [hst]; have : Gen.Disk.bsLastBlock = 192 := rfl; rw [this]; omega
+    rw [hu]
+    have hsize := sizeInBytes_of bat e last u h8 hl hst
+    have hpl := piecesFrom_length sd hw u e.lastBytes h1 h8 (by omega) e.blocks 0 hne hlt
+    have hpc := piecesFrom_contentOf sd u e.lastBytes h1 e.blocks 0 hne
+    rw [Nat.zero_add] at hpl hpc
+    have hn1 : 1 ≤ e.blocks.length := by
+      cases hb : e.blocks with
+      | nil => exact absurd hb hne
+      | cons _ _ => simp
+    have heq : (piecesFrom sd u e.lastBytes (e.blocks.length - 1) e.blocks 0).length = sizeInBytes bat e := by
+      rw [hpl, hsize]
+      generalize e.blocks.length = n at hn1
+      generalize e.lastBytes = lb
+      obtain ⟨m, rfl⟩ : ∃ m, n = m + 1 := ⟨n - 1, by omega⟩
+      obtain ⟨v, rfl⟩ : ∃ v, u = v + 1 := ⟨u - 1, by omega⟩
+      simp only [Nat.add_sub_cancel]
+      have : (8 * m + (v + 1) - 1) * 255 = 2040 * m + 255 * v := by
+        have : 8 * m + (v + 1) - 1 = 8 * m + v := by omega
+        rw [this, Nat.add_mul]; omega
+      rw [this]
+    have hfill := go_fill sd hw u e.lastBytes (e.blocks.length - 1) h8 (by omega) e.blocks 0
+      (List.replicate (sizeInBytes bat e) 0, 0) [] (sizeInBytes bat e) ⟨by simp, rfl⟩ hlt (by rw [heq]; exact Nat.le_refl _)
+    obtain ⟨hf1, _⟩ := hfill
+    rw [hf1, heq, Nat.sub_self]
+    simp
+
 /-! ### the independent reader on a consistent side -/
 
 /-- what the layout's reader reports for slot `i` of a consistent side -/
